@@ -1,0 +1,169 @@
+//go:build verif
+
+package iobroker
+
+// Contracts for the verification machinery in /verif (govc).  This file is
+// comment-only and is compiled only with -tags verif.
+
+// Ghost state: own<Dir> is the identity (a non-zero token unique to one
+// activation of connect) of the activation attached in that direction, 0 if
+// none; k<Dir> is the key that activation was admitted with.
+
+//@ type Broker as b
+//@   ghost ownIn int
+//@   ghost ownOut int
+//@   ghost kIn string
+//@   ghost kOut string
+//@   lock mu protects key, cancelIn, cancelOut, noMore, ownIn, ownOut, kIn, kOut
+//@   lockinv mu cin: (b.cancelIn != nil) == (b.ownIn != 0)
+//@   lockinv mu cout: (b.cancelOut != nil) == (b.ownOut != 0)
+//@   lockinv mu keyset: imp(b.key != "", b.ownIn != 0 || b.ownOut != 0)
+//@   lockinv mu kin: imp(b.key != "" && b.ownIn != 0, b.kIn == b.key)
+//@   lockinv mu kout: imp(b.key != "" && b.ownOut != 0, b.kOut == b.key)
+//@   lockinv mu kinne: imp(b.ownIn != 0, b.kIn != "")
+//@   lockinv mu koutne: imp(b.ownOut != 0, b.kOut != "")
+//@   lockinv{C01} mu sameid: imp(b.ownIn != 0 && b.ownOut != 0, b.kIn == b.kOut)
+//@   fresh mu me: b.ownIn != me && b.ownOut != me
+//@   guarantee mu inOthers: imp(old(b.ownIn) != me && b.ownIn != me, b.ownIn == old(b.ownIn) && b.cancelIn == old(b.cancelIn) && b.kIn == old(b.kIn))
+//@   guarantee mu inNoSteal: imp(old(b.ownIn) != me && old(b.ownIn) != 0, b.ownIn == old(b.ownIn))
+//@   guarantee mu inMine: imp(old(b.ownIn) == me, b.ownIn == me || b.ownIn == 0)
+//@   guarantee mu outOthers: imp(old(b.ownOut) != me && b.ownOut != me, b.ownOut == old(b.ownOut) && b.cancelOut == old(b.cancelOut) && b.kOut == old(b.kOut))
+//@   guarantee mu outNoSteal: imp(old(b.ownOut) != me && old(b.ownOut) != 0, b.ownOut == old(b.ownOut))
+//@   guarantee mu outMine: imp(old(b.ownOut) == me, b.ownOut == me || b.ownOut == 0)
+//@   guarantee mu noMoreMono: imp(old(b.noMore), b.noMore)
+//@   rely mu inKeep: imp(old(b.ownIn) == me, b.ownIn == me && b.cancelIn == old(b.cancelIn) && b.kIn == old(b.kIn))
+//@   rely mu inNotMe: imp(old(b.ownIn) != me, b.ownIn != me)
+//@   rely mu outKeep: imp(old(b.ownOut) == me, b.ownOut == me && b.cancelOut == old(b.cancelOut) && b.kOut == old(b.kOut))
+//@   rely mu outNotMe: imp(old(b.ownOut) != me, b.ownOut != me)
+
+//@ func Broker.connect(b, ctx, sl, addr, cancelUs, cancelOther, dir, key, proxy)
+//@   props C01 C04 C11
+//@   ghost me int
+//@   ghost phase int = 0
+//@   ghost key0 string = ""
+//@   ghost us0 bool = false
+//@   ghost other0 bool = false
+//@   ghost noMore0 bool = false
+//@   ghost otherAtRelock bool = false
+//@   ghost nProxy int = 0
+//@   ghost nNotice int = 0
+//@   ghost nErrRec int = 0
+//@   ghost reason string = ""
+//@   ghost nConn int = 0
+//@   ghost nDisc int = 0
+//@   ghost nNewConn int = 0
+//@   ghost nDiscRec int = 0
+//@   ghost nPeerCancel int = 0
+//@   ghost nAdd int = 0
+//@   ghost nDone int = 0
+//@   requires me != 0
+//@   requires (dir == LVInput && cancelUs == &b.cancelIn && cancelOther == &b.cancelOut) || (dir == LVOutput && cancelUs == &b.cancelOut && cancelOther == &b.cancelIn)
+//@   on call Mutex.Lock(m): if phase == 0 { key0 = b.key; us0 = *cancelUs != nil; other0 = *cancelOther != nil; noMore0 = b.noMore; phase = 1 } else { otherAtRelock = *cancelOther != nil; phase = 2 }
+//@   on assign *cancelUs(v): if v != nil { if dir == LVInput { b.ownIn = me; b.kIn = key } else { b.ownOut = me; b.kOut = key } } else { if dir == LVInput { b.ownIn = 0 } else { b.ownOut = 0 } }
+//@   on enter proxy(c, l): assert(!noMore0 && key != "" && !(key0 == "" && (us0 || other0)) && !us0 && (key0 == "" || key == key0), "admitted_only"); assert(nNotice == 0, "no_close_or_gone_notice_before_proxy"); assert(!held("Broker.mu"), "proxy_runs_unlocked"); nProxy++
+//@   on call Broker.Errorf(bb, a, f, v): nNotice++
+//@   on call slog.Logger.Error(ll, m, v): nErrRec++; reason = m; if m == LMDisconnected { assert(nProxy == 1, "disconnect_record_after_proxy"); nDiscRec++ }
+//@   on call slog.Logger.Info(ll, m, v): if m == LMNewConnection { assert(nProxy == 0, "connect_record_before_proxy"); nNewConn++ } else { if m == LMDisconnected { assert(nProxy == 1, "disconnect_record_after_proxy"); nDiscRec++ } }
+//@   on send b.evCh(v): if v.Type == EventTypeConnected { nConn++ } else { if v.Type == EventTypeDisconnected { nDisc++ } }
+//@   on enter Mutex.Unlock(m): if phase == 1 && nNewConn == 1 { assert(iff(nConn == 1, *cancelUs != nil && *cancelOther != nil), "connected_event_iff_fully_attached") }
+//@   on go f(): nPeerCancel++
+//@   on enter WaitGroup.Add(wg, n): assert(held("Broker.mu") && !b.noMore, "add_only_under_lock_before_shutdown"); nAdd++
+//@   on call WaitGroup.Done(wg): nDone++
+//@   exit {C04}: assert(imp(nProxy == 1, b.key == "" && *cancelUs == nil), "released"); assert(imp(nProxy == 1, iff(nDisc == 1, *cancelOther == nil)) && imp(nProxy == 0, nDisc == 0) && nDisc <= 1, "gone_event_iff_both_ended"); assert(imp(nProxy == 1 && otherAtRelock, nPeerCancel == 1), "peer_cancelled")
+//@   ensures proxy_once: nProxy <= 1
+//@   ensures admitted_proxied: imp(!noMore0 && key != "" && !(key0 == "" && (us0 || other0)) && !us0 && (key0 == "" || key == key0), nProxy == 1)
+//@   ensures refusal_announced: imp(nProxy == 0 && !noMore0, nNotice >= 1 && nErrRec >= 1)
+//@   ensures shutdown_silent: imp(noMore0, nProxy == 0 && nNotice == 0)
+//@   ensures{C04} wg_balanced: nAdd == nDone && nAdd <= 1 && imp(nProxy == 1, nAdd == 1)
+//@   ensures{C11} records_accepted: imp(nProxy == 1, nNewConn == 1 && nDiscRec == 1)
+//@   ensures{C11} records_refused: imp(nProxy == 0, nNewConn == 0 && nDiscRec == 0 && imp(!noMore0, nErrRec == 1))
+//@   ensures{C11} reason_missing: imp(!noMore0 && key == "", reason == LMKeyMissing)
+//@   ensures{C11} reason_teardown: imp(!noMore0 && key != "" && key0 == "" && (us0 || other0), reason == LMDisconnecting)
+//@   ensures{C11} reason_duplicate: imp(!noMore0 && key != "" && !(key0 == "" && (us0 || other0)) && us0, reason == LMAlreadyConnected)
+//@   ensures{C11} reason_wrongkey: imp(!noMore0 && key != "" && !(key0 == "" && (us0 || other0)) && !us0 && key0 != "" && key != key0, reason == LMIncorrectKey)
+
+//@ func Broker.ConnectIn(b, ctx, sl, addr, w, key)
+//@   props C01 C02
+//@   ghost n int = 0
+//@   flows w: Broker.proxyIn
+//@   on enter Broker.connect(bb, c, l, a, cu, co, d, k, p): assert(bb == b && c == ctx && l == sl && a == addr && d == LVInput && k == key, "callshape"); n++
+//@   ensures once: n == 1
+
+//@ func Broker.ConnectIn#1(ctx, sl) (err)
+//@   props C01 C02
+//@   ghost n int = 0
+//@   on enter Broker.proxyIn(bb, c, l, ww): assert(bb == b && c == ctx && l == sl && ww == w, "writer_only_to_proxyIn"); n++
+//@   ensures once: n == 1
+
+//@ func Broker.ConnectOut(b, ctx, sl, addr, r, key)
+//@   props C01 C03
+//@   ghost n int = 0
+//@   flows r: Broker.proxyOut
+//@   on enter Broker.connect(bb, c, l, a, cu, co, d, k, p): assert(bb == b && c == ctx && l == sl && a == addr && d == LVOutput && k == key, "callshape"); n++
+//@   ensures once: n == 1
+
+//@ func Broker.ConnectOut#1(ctx, sl) (err)
+//@   props C01 C03
+//@   ghost n int = 0
+//@   on enter Broker.proxyOut(bb, c, l, rr): assert(bb == b && c == ctx && l == sl && rr == r, "reader_only_to_proxyOut"); n++
+//@   ensures once: n == 1
+
+//@ func Broker.Do#2() (err)
+//@   props C04
+//@   ghost me int
+//@   ghost set bool = false
+//@   ghost nWait int = 0
+//@   requires me != 0
+//@   on assign b.noMore(v): set = v
+//@   on enter WaitGroup.Wait(wg): assert(set && !held("Broker.mu"), "noMore_set_before_wait"); nWait++
+//@   ensures waits: nWait == 1
+
+// proxyIn: one line at a time: receive, write line+"\n" to w, flush, log.
+//@ func Broker.proxyIn(b, ctx, sl, w) (err)
+//@   props C02 C11 C04
+//@   ghost phase int = 0
+//@   ghost cur string = ""
+//@   ghost failed bool = false
+//@   on recv b.ich(l, ok): assert(phase == 0, "previous_line_fully_delivered_before_next_is_taken"); if ok { phase = 1; cur = l }
+//@   on call io.WriteString(ww, s) (n, e): assert(phase == 1 && ww == w && s == cur + "\n", "write_exactly_line_plus_newline_once"); phase = 2; failed = e != nil
+//@   on call <iface>.FlushError(f) (e): assert(phase == 2 && !failed && f == w, "flush_after_successful_write"); phase = 3; failed = e != nil
+//@   on call http.Flusher.Flush(f): assert(phase == 2 && !failed && f == w, "flush_after_successful_write"); phase = 3
+//@   on call slog.Logger.Info(ll, m, v): assert(m == LMShellIO && !failed && (phase == 3 || (phase == 2 && !implements(w, "interface{FlushError() error}") && !implements(w, "net/http.Flusher"))), "logged_iff_written_and_flushed"); assert(unboxStr(v[1]) == cur + "\n", "log_data_is_the_delivered_line"); phase = 0
+//@   loop 1
+//@     invariant idle: phase == 0
+//@   ensures{C02} clean_end: imp(err == nil, phase == 0)
+//@   ensures{C02} lost_only_own_failure: imp(phase != 0, failed)
+
+// proxyOut: forwarding loop.
+//@ func Broker.proxyOut(b, ctx, sl, r) (err)
+//@   props C03 C11 C04
+//@   ghost have bool = false
+//@   ghost cur string = ""
+//@   ghost dropped bool = false
+//@   ghost shownNotLogged bool = false
+//@   ghost ended bool = false
+//@   on recv och(o, ok): assert(!have && !dropped && !shownNotLogged && !ended, "one_chunk_at_a_time_none_after_end"); if ok && o.o != "" { have = true; cur = o.o }; if !ok || o.err != nil { ended = true }
+//@   on send b.och(v): assert(have && v.Plain && v.Line == cur, "shown_exactly_the_dequeued_chunk"); have = false; shownNotLogged = true
+//@   on call slog.Logger.Info(ll, m, v): assert(shownNotLogged && m == LMShellIO && unboxStr(v[1]) == cur, "logged_iff_shown"); shownNotLogged = false
+//@   on recv ctx.Done()(x, ok): if have { have = false; dropped = true }
+//@   loop 2
+//@     invariant nopending: !have && !shownNotLogged
+//@     invariant stops: imp(dropped || ended, err != nil)
+//@     invariant dropdone: imp(dropped, done(ctx))
+//@   ensures{C03} nothing_pending: !have && !shownNotLogged
+//@   ensures{C03} drop_only_when_cancelled: imp(dropped, done(ctx))
+
+// proxyOut's reader goroutine.
+//@ func Broker.proxyOut#1()
+//@   props C03 C04
+//@   ghost lastN int = 0
+//@   ghost lastErr error = nil
+//@   ghost sentData bool = false
+//@   ghost sentErr bool = false
+//@   on call io.Reader.Read(rr, p) (n, e): assert(rr == r && lastErr == nil, "no_read_after_error"); lastN = n; lastErr = e; sentData = false; sentErr = false
+//@   on send och(v): if v.err == nil { assert(lastN != 0 && !sentData && !sentErr && v.o == string(buf[:lastN]), "data_item_is_exact_copy_of_read") ; sentData = true } else { assert(lastErr != nil && !sentErr && v.err == lastErr && imp(lastN != 0, sentData) && v.o == "", "error_item_after_its_data") ; sentErr = true }
+//@   loop 1
+//@     invariant forwarded: imp(lastN != 0, sentData) && imp(lastErr != nil, sentErr)
+//@     invariant errvar: err == lastErr
+//@     invariant bufok: len(buf) == 2048
+//@   ensures all_forwarded_unless_cancelled: done(ctx) || (imp(lastN != 0, sentData) && imp(lastErr != nil, sentErr))
